@@ -69,11 +69,11 @@ def check_state(root, s):
     return out, ncalls
 
 
-def judge_transition(cname, node, result, change, error):
+def judge_transition(cname, node, result, change, error, nb=None):
     if error is not None:
-        return [(f"{cname}|applicable-but-raises:{type(error).__name__}|{RW.neighbourhood(node)}", repr(error)[:300])]
+        return [(f"{cname}|applicable-but-raises:{type(error).__name__}|{nb or RW.neighbourhood(node)}", repr(error)[:300])]
     if change is None or not _is_expr(result):
-        return [(f"{cname}|result-is-not-an-expression|{RW.neighbourhood(node)}", repr(result))]
+        return [(f"{cname}|result-is-not-an-expression|{nb or RW.neighbourhood(node)}", repr(result))]
     return []
 
 
@@ -88,22 +88,28 @@ class V(steps.Visitor):
             acc.sample({"start": ctx["text"], "trace": ctx["trace"], "checked": "11 configs x every node: purity, determinism, search"})
 
     def on_transition(self, acc, ctx, root, s, cname, rule, index, node, result, change, error):
-        for core, detail in judge_transition(cname, node, result, change, error):
-            acc.violation(core, {"text": ctx["text"], "trace": ctx["trace"], "cfg": cname, "index": index, "kind": "apply"},
-                          f"{detail}  [state {SG.show(s)}]")
+        for core, detail in judge_transition(cname, node, result, change, error, ctx.get("nb")):
+            acc.violation(core, {"text": ctx["text"], "trace": ctx["trace"], "cfg": cname, "index": index, "kind": "apply",
+                                 "inplace": ctx.get("inplace", False)}, f"{detail}  [state {SG.show(s)}]")
 
 
 def run(tier, seed):
     depth = 1 if tier == "quick" else 2
     t1, h1 = steps.start_texts(tier, "expr")
     t2, h2 = steps.start_texts(tier, "eqn")
-    acc = steps.run(V, t1[:h1] + t2[:h2] + t1[h1:] + t2[h2:], depth, "any", seed, h1 + h2)
+    texts = t1[:h1] + t2[:h2] + t1[h1:] + t2[h2:]
+    acc = steps.run(V, texts, depth, "any", seed, h1 + h2)
+    small = (steps.small_texts("expr") + steps.small_texts("eqn")) if tier == "quick" else texts[h1 + h2:][::4]
+    if tier == "quick":
+        acc.merge(steps.run(V, small, 2, "any", seed, 0, key="small"))  # closure depth 2: the same rule objects see a tree and its rewrites
+    acc.merge(steps.run(V, small, "inplace", "any", seed, 0, key="small"))  # live-tree mode, 2 steps
     cov = {
         "states": len(acc.keys),
         "transitions": acc.n["transitions"],
         "traces_validated_against_impl": acc.n["transitions"],
         "exhaustive": True,
-        "bound": {"start_texts": acc.n["start_texts"], "closure_depth": depth},
+        "bound": {"start_texts": len(texts), "closure_depth": depth, "depth2_and_inplace_start_texts": len(small)},
+        "inplace_transitions": acc.n["inplace_transitions"],
         "can_apply_calls_checked_for_purity": acc.n["can_apply_calls"],
         "per_config": {k[8:]: v for k, v in sorted(acc.n.items()) if k.startswith("applied:")},
         "explanation": "every state (expressions and equations) x 11 configurations x EVERY node: can_apply_to is called with a full "
@@ -114,12 +120,29 @@ def run(tier, seed):
     return acc, cov, ["purity is judged on links, payload, ids, classes, _changed and r_index of every node of the tree"]
 
 
-def replay(case):
-    roots = RW.run_trace(case["text"], case["trace"])
-    cur = roots[-1]
-    s = SG.sig(cur)
+def _replay_direct(case):
     if case.get("kind") == "state":
+        roots = RW.run_trace(case["text"], case["trace"], scan_states=False)
+        cur = roots[-1]
+        s = SG.sig(cur)
         res, _ = check_state(cur, s)
         return [(c, d) for c, d, cn, ix in res if cn == case["cfg"]]
-    cur, s, cname, rule, index, node, result, change, error = steps.replay_last(case)
-    return judge_transition(cname, node, result, change, error)
+    cur, s, cname, rule, index, node, result, change, error, nb = steps.replay_last(case)
+    return judge_transition(cname, node, result, change, error, nb)
+
+
+def replay(case):
+    """direct replay of the recorded trace; if the recorded violation depends on state that rule objects
+    carried over from the exploration of the same seed, fall back to re-exploring that seed from fresh
+    rule objects (deterministic: rule objects are reset per seed)"""
+    want = case.get("_core")
+    try:
+        got = _replay_direct(case)
+    except Exception:  # noqa
+        got = []
+    if got and (want is None or any(c == want for c, _ in got)):
+        return got
+    again = steps.reexplore(case, V)
+    if want is not None and any(c == want for c, _ in again):
+        return [(c, d) for c, d in again if c == want]
+    return again or got
